@@ -69,6 +69,7 @@ type Tr struct {
 	errs     []string
 	uninterp map[string]bool
 	covers   []*Site
+	atMatched map[int]bool // at-call clauses of the contract that matched some call site
 	frames   int
 	sl       *slicer
 	privPkg  string
